@@ -75,3 +75,22 @@ def judge (hint : Nat) (reach : List Nat) (s0 : St) (evs : List Ev) : Option Nat
   go s0 false 0 evs
 
 end DSV.Fs
+
+namespace DSV.Fs
+
+/-- a write whose file fsync FAILS (EIO / ENOSPC at flush time): the exception leaves `write_file` before the rename and the
+temp file is removed -/
+def lowerWriteFail (t d : Nat) : List Ev := [.creat t d, .write t, .unlink t]
+
+/-- the syscall trace of a commit in which the fsync of the `k`-th referenced file fails: the files before it are written,
+the failing one never reaches its rename, nothing after it (in particular not the pointer) is written -/
+def commitTraceFail (files : List W) (k : Nat) : List Ev :=
+  (files.take k).flatMap (fun w => lowerWrite w.tmp w.fin w.dir) ++
+    (match files[k]? with | some w => lowerWriteFail w.tmp w.dir | none => [])
+
+/-- does the event put a new inode under path `h`? -/
+def flipsTo (h : Nat) : Ev → Bool
+  | .rename _ dst => dst == h
+  | _ => false
+
+end DSV.Fs
